@@ -329,6 +329,8 @@ def generate(rng, tier):
                     # the documented _HTTP_PREFIX_MAP hook (the service reached directly, through a gateway, ...)
                     op["mixin"] = True
                     methods = [dict(mm) for mm in MIXIN_METHODS]
+                if rng.random() < 0.4:
+                    op["helper"] = True     # the wrappers share one private helper that calls get_conn()
                 op["prefix_map"] = pm
                 op["methods"] = methods
                 g.methods = {m["name"] for m in methods
@@ -567,9 +569,19 @@ class World:
         mh = hw.mcaller_http
         ns = {"_HTTP_PREFIX_MAP": dict(op["prefix_map"]), "__doc__": "simulated method caller"}
 
+        via_helper = bool(op.get("helper"))
+
+        def _issue(self, verb, path, kw):
+            # the application's shared private helper (paging, default params): it is the one who asks for the
+            # connection; the library finds the wrapper further up the stack
+            return getattr(self.get_conn(), verb)(path, **kw)
+        ns["_issue"] = _issue
+
         def mk(name, comps):
             def method(self, verb, path, kw):
                 """issue one request"""
+                if via_helper:
+                    return self._issue(verb, path, kw)
                 return getattr(self.get_conn(), verb)(path, **kw)
             method.__name__ = name
             method.__qualname__ = name
